@@ -40,6 +40,7 @@ LOAD_ASSUME = ["atomicity of hashmap.Compute sections (C15) and of the calls tab
 
 PERIODIC = dict(engine="periodic", scale_quick=3, scale_thorough=20, timeout_quick=600, timeout_thorough=3000, model=False)
 LIN = dict(engine="lin", scale_quick=8, scale_thorough=40, timeout_quick=900, timeout_thorough=6000)
+SCHED = dict(engine="sched", scale_quick=3, scale_thorough=30, timeout_quick=600, timeout_thorough=3000)
 DRAIN = dict(engine="drain", scale_quick=6, scale_thorough=30, timeout_quick=900, timeout_thorough=6000, model=False)
 
 PROPS = {
@@ -50,14 +51,21 @@ PROPS = {
                      "per key a Wing-Gong search for a linearization against the extracted sequential model; distinct_nontrivial = distinct (bounded, keys, goroutines, ops) shapes",
                 assumptions=["atomicity of hashmap.Get / Compute (C15)", "no expiry calculator (the read-extension of deadlines is a second atomic access)",
                              "loader-backed Get is covered by the C08/C09 protocol engine", "histories longer than 60 events per key are not searched (none occur)"]),
-    "C14": dict(engines=[DRAIN],
-                rule="drain engine: (a) 60 scripted protocol windows per unit of scale, reached by parking goroutines at hook points: V1 the maintainer parked before its final status "
+    "C14": dict(engines=[SCHED, DRAIN],
+                rule="sched engine (the tie between the Coq drain-status model and the code): 150 schedules per unit of scale over 1-3 writers, 0-2 explicit CleanUp callers and every maintenance task they spawn; "
+                     "every goroutine parks at the protocol's hook points (before/after the status load in scheduleAfterWrite, before TryLock, after TryLock, after the executor call, start of the task, start of "
+                     "maintenance, before the final status transition, start of rescheduleCleanUpIfIncomplete) and exactly one is resumed at a time until its next hook point, the end of its call, or until it "
+                     "blocks on the eviction lock (decided from the goroutine's wait reason in the runtime stack dump, not from timing); the executor is the harness's (one goroutine per task like the default, "
+                     "plus an end-of-task signal) with the default executor's rescheduling protocol; the replayer executes the same macro steps (DrainMacro.macro_step, proved to be small-step runs) on the extracted "
+                     "model and compares the drain status, write-buffer size, lock and every thread's position after each; at the end: all threads finished => status idle, buffer empty, lock free; "
+                     "drain engine: (a) 60 scripted protocol windows per unit of scale, reached by parking goroutines at hook points: V1 the maintainer parked before its final status "
                      "transition, a writer pushes, loads 'processing-to-idle' and is parked before acting on it, the maintainer finishes (idle), the writer resumes and must start over; V2 the same with "
                      "the writer's transition winning; V3 a writer holding a stale 'idle' while another writer runs a whole cycle; (b) 400 rounds per unit of scale with the DEFAULT executor: 1-6 writers (Set/SetIfAbsent/Invalidate bursts of 1-12 or 100-500 writes) and 0-2 readers on a cache of "
                      "maximum 2-21; hook points inside the protocol inject random yields/sleeps (4 perturbation modes); after the calls return NO further cache call is made: only atomic loads of the drain "
                      "status and write-buffer size until quiescent (3 s limit), then status idle, buffer empty, bound restored, every write linked in the policy, OnDeletion count = OnAtomicDeletion count; "
                      "distinct_nontrivial = distinct (writers, readers, perturbation, burst) combinations",
-                assumptions=["the Coq theorems are exhaustive over schedules for 1 and 2 initial writer threads only; larger populations are exercised by the engine, not proved",
+                assumptions=["the Coq theorems are exhaustive over schedules for 1 and 2 initial writer threads (and 1 writer + 1 CleanUp caller) only; larger populations are exercised by the engines, not proved",
+                             "the sched engine interleaves at hook-point granularity (9 points): interleavings inside one macro step (e.g. between the status store and the executor call) are covered by the small-step theorem only through the model",
                              "sync.Mutex, goroutine creation and the memory model of sync/atomic are modelled", "InvalidateAll and the 100-refusal caller-runs fallback are outside the model"]),
     "C08": dict(engines=[LOAD], rule=LOAD_RULE, assumptions=LOAD_ASSUME),
     "C09": dict(engines=[LOAD], rule=LOAD_RULE, assumptions=LOAD_ASSUME),
